@@ -18,7 +18,11 @@ FAULTS for every 1- and 2-stage kind combination under bare and $() (plus redire
 acquisition calls the procs modules make (os.pipe in procs.pipes, pty.openpty, specs' open,
 subprocess.Popen, threading.Thread.start) are logged in a fault-free run, then the shape is re-run
 once per logged call with exactly that call failing (EMFILE; FileNotFoundError / PermissionError /
-EAGAIN for Popen; RuntimeError for Thread.start), same oracle.
+EAGAIN and the non-OSErrors ValueError / TypeError for Popen; RuntimeError for Thread.start), same
+oracle.  THREE-STAGE EARLY EXIT (both tiers): <endless or slow producer> | <middle that leaves after
+one line> | <reader until EOF>, external and alias kinds in each position, under the per-case alarm
+(a wedge is `hang:<shape>`).  NUL family: the natural non-OSError spawn failure - an exported
+variable containing a NUL byte makes Popen() raise ValueError - and a NUL in argv as control.
 
 Does NOT require:
   * anything for `&` background commands (not generated);
@@ -94,6 +98,33 @@ EARLY_THOROUGH = EARLY_QUICK + [
     ("ext_big", "ext_eat", "ext_head1"),
 ]
 
+# three stages: <endless or slow producer> | <middle that leaves after one line> | <reader until
+# EOF>.  The reader only ends when xonsh releases the MIDDLE stage's pipe write end while the
+# FIRST stage is still running; external and alias kinds in every position (quick too)
+EARLY3 = [(p, m, r) for p in ("ext_slowbig", "thr_slowbig", "ext_big") for m in ("ext_head1", "thr_head1") for r in ("ext_eat", "thr_ok")]
+
+# spawn failures that are not OSErrors, the natural way: an exported variable with a NUL byte makes
+# every Popen() raise ValueError('embedded null byte'); a NUL in argv is escaped by xonsh (control)
+NUL_SHAPES_QUICK = [(("ext_ok",), c) for c in CAPTURES] + [(st, c) for st in (("ext_ok", "ext_ok"), ("thr_ok", "ext_ok"), ("ext_ok", "thr_ok")) for c in ("bare", "$()")]
+NUL_KINDS_THOROUGH = ["ext_ok", "thr_ok", "thr_raise", "unthr_ok"]
+NULARG_SHAPES = [(("ext_nularg",), "bare"), (("ext_nularg",), "$()"), (("ext_nularg", "ext_ok"), "bare")]
+
+
+def nul_space(thorough):
+    """[(stages, capture, flag)]: flag 'nulenv' or 'none' (NUL in argv)."""
+    shapes = list(NUL_SHAPES_QUICK)
+    if thorough:
+        shapes = [(("ext_ok",), c) for c in CAPTURES]
+        for st in itertools.product(NUL_KINDS_THOROUGH, repeat=2):
+            if "ext_ok" in st:
+                shapes += [(st, c) for c in CAPTURES]
+    return [(st, c, "nulenv") for st, c in shapes] + [(st, c, "none") for st, c in NULARG_SHAPES]
+
+
+def _mk_flag_case(stages, cap, flag):
+    return {"stages": list(stages), "capture": cap, "redirect": "none", "fault": None, "reps": 3, "shims": False, "flag": flag}
+
+
 # terminal hand-over family: the case process is a session leader whose controlling terminal is a
 # pty of the harness, $XONSH_INTERACTIVE is on; uncaptured foreground external commands get the
 # terminal (tcsetpgrp) and xonsh must take it back on every path, raising or not
@@ -130,6 +161,8 @@ REP = {
     "ext_eat": "ext_ok",
     "ext_head1": "ext_ok",
     "ext_killed": "ext_ok",
+    "ext_nularg": "ext_ok",
+    "thr_slowbig": "thr_ok",
     "nonexec": "nosuch",
     "dir": "nosuch",
     "nonexec_rel": "nosuch",
@@ -174,7 +207,7 @@ def _valid(stages, red):
     if not stages or (red == "a>p" and len(stages) < 2):
         return False
     for i, k in enumerate(stages):
-        if k == "ext_slowbig" and (i == len(stages) - 1 or stages[i + 1] not in _NON_DRAINING):
+        if k in ("ext_slowbig", "thr_slowbig") and (i == len(stages) - 1 or stages[i + 1] not in _NON_DRAINING):
             return False
     return True
 
@@ -200,6 +233,7 @@ def main_space(thorough):
                     if _deviations(stages, cap, red) <= 3:
                         out.append((stages, cap, red))
         early, ecaps, ereds = EARLY_THOROUGH, CAPTURES, ["none", ">out", "2>&1"]
+        out += [(st, cap, "none") for st in EARLY3 for cap in CAPTURES]
     else:
         for n in (1, 2):
             for stages in itertools.product(KINDS, repeat=n):
@@ -208,6 +242,7 @@ def main_space(thorough):
                         if _valid(stages, red) and _deviations(stages, cap, red) <= 2:
                             out.append((stages, cap, red))
         early, ecaps, ereds = EARLY_QUICK, ["bare", "$()", "!()"], ["none"]
+        out += [(st, cap, "none") for st in EARLY3 for cap in ("bare", "$()")]
     for stages in early:
         for cap in ecaps:
             for red in ereds:
@@ -582,6 +617,64 @@ def _run_tty_family(ctx, results):
     return {"tty_cases": len(cases), "tty_cases_terminal_given_away": handed, "evaluations": len(cases) + 2 * len(todo) + red.extra_runs, "nontrivial": handed, "tty_unconfirmed_dropped": dict(dropped)}
 
 
+def _run_nul_family(ctx, results):
+    """Non-OSError spawn failures through their natural trigger (see NUL_* above)."""
+    space = nul_space(ctx.thorough)
+    cases = [_mk_flag_case(*t) for t in space]
+    res = common.pmap(_run, cases, ctx.jobs, chunk=2, init=_init, seed=ctx.seed)
+    fres = dict(zip(space, res))
+    todo = [t for t in space if fres[t]["sigs"] and (fres[t]["deaths"] or any(s.startswith(CONFIRM) for s in fres[t]["sigs"]))]
+    again = common.pmap(_run, [_mk_flag_case(*t) for t in todo for _ in range(2)], ctx.jobs, chunk=1, init=_init, seed=ctx.seed)
+    dropped = Counter()
+    steady = {}
+    for i, t in enumerate(todo):
+        r, runs = fres[t], again[2 * i : 2 * i + 2]
+        if r["deaths"]:
+            steady[t] = [d for d in r["deaths"] if all(d in a["deaths"] for a in runs)]
+            continue
+        for sig in [s for s in r["sigs"] if s.startswith(CONFIRM)]:
+            if not all(sig in a["sigs"] for a in runs):
+                dropped[sig.split("[")[0]] += 1
+                del r["sigs"][sig]
+    red = Reducer(results)
+    spawn_failed = 0
+    for t in space:
+        r = fres[t]
+        stages, cap, flag = t
+        if flag == "nulenv" and "ValueError" in (r["stderr_tail"] or "") + str(r["outcomes"]):
+            spawn_failed += 1
+        if not r["sigs"]:
+            continue
+        case = _mk_flag_case(*t)
+        note = f"flag {flag}; outcomes per repetition: {r['outcomes']}; stderr tail: {r['stderr_tail'][-200:]!r}"
+        if r["deaths"]:
+            obs = {"thread deaths": r["deaths"], "session differences": sorted(r["sigs"])}
+            keys = [_death_sig(d) for d in steady.get(t, [])] or ["race:stage-thread-died[" + "+".join(sorted({d.split(":")[0] for d in r["deaths"]})) + "]"]
+            for k in keys:
+                ctx.violation(k, CLAUSE["stage-thread-died"], {"case": case, "line": H.render(case), "signature": k if not k.startswith("race:") else "race:stage-thread-died"}, observed=obs, expected="stage threads end normally; session as before", note=note)
+            continue
+        # with the NUL variable the first external stage cannot be spawned: what a missing command is
+        ext = [i for i, k in enumerate(stages) if k.startswith("ext_")]
+        if flag == "nulenv" and ext:
+            equiv = (stages[: ext[0]] + ("nosuch",) + stages[ext[0] + 1 :], cap, "none", None)
+        else:
+            equiv = (tuple(REP.get(k, k) for k in stages), cap, "none", None)
+        for sig, det in r["sigs"].items():
+            if sig.startswith("stdio"):
+                key, reduced = stdio_key(equiv, sig), None
+            else:
+                er = None if sig.startswith("hang") else red.sigs_of(equiv, sig)
+                if er is not None and sig in er:
+                    mcid = red.reduce(equiv, sig)
+                    key, reduced = key_of(mcid, sig), H.render(_mk_case(*mcid[:3])).strip()
+                else:
+                    key, reduced = f"{sig}:{'|'.join(stages)}:{cap}:none:{'nul-in-env' if flag == 'nulenv' else 'nul-in-argv'}", None
+            ctx.violation(key, CLAUSE.get(sig.split("[")[0], sig), {"case": case, "line": H.render(case), "signature": sig, "reduced_to": reduced}, observed=det["observed"], expected=det["expected"], note=note)
+    ctx.sample({"line": H.render(cases[0]), "flag": cases[0]["flag"], "outcomes": res[0]["outcomes"], "violated": sorted(res[0]["sigs"])})
+    ctx.log(f"NUL family: {len(cases)} cases ({spawn_failed} with a spawn that failed with ValueError); {len(todo)} re-run twice, dropped {dict(dropped)}; {red.extra_runs} extra runs")
+    return {"nul_cases": len(cases), "nul_cases_spawn_failed_with_ValueError": spawn_failed, "evaluations": len(cases) + 2 * len(todo) + red.extra_runs, "nontrivial": len(cases), "nul_unconfirmed_dropped": dict(dropped)}
+
+
 def run(ctx):
     H.warm_up()
     space = main_space(ctx.thorough)
@@ -589,7 +682,7 @@ def run(ctx):
     ctx.log(f"main space {len(space)} cases; {len(fshapes)} shapes for fault enumeration")
     main_cases = [_mk_case(*c) for c in space]
     rec_cases = [_mk_case(*c, shims=True) for c in fshapes]
-    out = common.pmap(_run, main_cases + rec_cases, ctx.jobs, chunk=4, init=_init, seed=ctx.seed)
+    out = common.pmap(_run, main_cases + rec_cases, ctx.jobs, chunk=2, init=_init, seed=ctx.seed)
     main_res, rec_res = out[: len(main_cases)], out[len(main_cases) :]
     ctx.log("fault-free runs done")
 
@@ -671,13 +764,13 @@ def run(ctx):
     # scheduling-sensitive classes (its cases are re-run twice; 3 out of 3 or it is dropped)
     support = Counter((m, sig) for (_c, sig), m in prov.items())
     confirmed = set(todo)
-    rare = sorted({c for (c, sig), m in prov.items() if support[(m, sig)] < 3 and c not in confirmed}, key=repr)
+    rare = sorted({c for (c, sig), m in prov.items() if support[(m, sig)] < 3 and c not in confirmed and not sig.startswith("hang")}, key=repr)
     again2 = common.pmap(_run, [cases_by_cid[c] for c in rare for _ in range(2)], ctx.jobs, chunk=2, init=_init, seed=ctx.seed)
     for i, cid in enumerate(rare):
         r = results[cid]
         runs = again2[2 * i : 2 * i + 2]
         for sig in list(r["sigs"]):
-            if (cid, sig) in prov and support[(prov[(cid, sig)], sig)] < 3 and not all(sig in a["sigs"] and not a["deaths"] for a in runs):
+            if (cid, sig) in prov and not sig.startswith("hang") and support[(prov[(cid, sig)], sig)] < 3 and not all(sig in a["sigs"] and not a["deaths"] for a in runs):
                 unconfirmed[sig.split("[")[0]] += 1
                 del r["sigs"][sig]
                 del prov[(cid, sig)]
@@ -727,19 +820,21 @@ def run(ctx):
             )
     ctx.log(f"key reduction needed {extra_runs} extra runs")
     tty = _run_tty_family(ctx, results)
+    nul = _run_nul_family(ctx, results)
     # simplest-first artefacts
     ctx.violations.sort(key=lambda v: (v.case["case"]["fault"] is not None, _deviations(tuple(v.case["case"]["stages"]), v.case["case"]["capture"], v.case["case"]["redirect"]), len(v.case["case"]["stages"])))
 
     for cid in common.pick_samples([c for c in order if c[3] is None], ctx.seed, 5) + common.pick_samples([c for c in order if c[3] is not None], ctx.seed, 4):
         case, r = cases_by_cid[cid], results[cid]
         ctx.sample({"line": H.render(case), "fault": case["fault"], "outcomes": r["outcomes"], "acquisition_log": r["log"], "violated": sorted(r["sigs"])})
-    total = len(main_cases) + len(rec_cases) + len(fault_cases) + 2 * len(todo) + 2 * len(rare) + extra_runs + tty["evaluations"]
+    total = len(main_cases) + len(rec_cases) + len(fault_cases) + 2 * len(todo) + 2 * len(rare) + extra_runs + tty["evaluations"] + nul["evaluations"]
     nontrivial = {c for c in order if (c[3] is None and _deviations(*c[:3]) > 0)} | {_cid(c) for c, r in zip(fault_cases, fres) if r["fired"]}
     ctx.coverage.update(
         evaluations=total,
-        distinct_nontrivial=len(nontrivial) + tty["nontrivial"],
+        distinct_nontrivial=len(nontrivial) + tty["nontrivial"] + nul["nontrivial"],
         rule="a fault-free case is non-trivial when it differs from the base line (`ok`, bare, no redirect) in at least one of stage kinds / capture / redirect; a fault case when the injected failure was actually reached in the re-run; a controlling-terminal case when xonsh really gave the terminal away (tcsetpgrp) in at least one repetition",
         terminal_family={k: v for k, v in tty.items() if k not in ("evaluations", "nontrivial")},
+        nul_family={k: v for k, v in nul.items() if k not in ("evaluations", "nontrivial")},
         exhaustive=True,
         main_space_cases=len(main_cases),
         fault_shapes=len(rec_cases),
